@@ -780,4 +780,98 @@ theorem run_mono {σ σ' : State} (h : Reach σ) {es : List Ev} (hr : run σ es 
       obtain ⟨m2, hm2, hmono2⟩ := ih (Reach.step e h hs) hr hm1
       exact ⟨m2, hm2, hmono1.trans hmono2⟩
 
+/-- Some step of task `i` itself (not of the environment) is enabled. -/
+def Enabled (σ : State) (i : Nat) : Prop :=
+  ∃ e, e ∈ [Ev.supStep i, .setupDone i, .stepDone i, .seeStop i, .cleanupDone i] ∧
+    (step σ e).isSome = true
+
+theorem Desc.trans_child {σ : State} {s c d : Nat} {cn : Node} (hc : σ.nodes c = some cn)
+    (hp : cn.parent = some s) (h : Desc σ c d) : Desc σ s d := by
+  induction h with
+  | refl => exact Desc.child hc hp Desc.refl
+  | child hd hpd _ ih => exact Desc.child hd hpd ih
+
+theorem live_child_of_not_noLiveChild {σ : State} {s : Nat} (h : σ.noLiveChild s = false) :
+    ∃ c cn, c < σ.size ∧ σ.nodes c = some cn ∧ cn.parent = some s ∧ cn.done = false := by
+  simp only [State.noLiveChild] at h
+  rw [List.all_eq_false] at h
+  obtain ⟨c, hc, hcc⟩ := h
+  rw [List.mem_range] at hc
+  cases hn : σ.nodes c with
+  | none => simp [hn] at hcc
+  | some cn =>
+    simp [hn, liveChildOf] at hcc
+    exact ⟨c, cn, hc, hn, hcc.1, hcc.2⟩
+
+theorem actor_enabled {σ : State} (inv : Inv σ) {c : Nat} {cn : Node} (hc : σ.nodes c = some cn)
+    (hk : cn.kind = .actor) (hp : cn.pending = true) (hd : cn.done = false) : Enabled σ c := by
+  obtain ⟨hl1, _, hl3⟩ := inv.loc c cn hc
+  obtain ⟨_, _, hin⟩ := hl3 hk
+  rw [Node.done_false_iff] at hd
+  have h012 : cn.pc = 0 ∨ cn.pc = 1 ∨ cn.pc = 2 := by omega
+  rcases h012 with h0 | h1 | h2
+  · refine ⟨.setupDone c, by simp, ?_⟩
+    have : cn.op = some 0 := (Node.op_iff cn 0).mpr ⟨h0, by omega⟩
+    simp [step, actorStep, hc, hk, this]
+  · have hop : cn.op = some 1 := (Node.op_iff cn 1).mpr ⟨h1, by omega⟩
+    cases hi : cn.inStep with
+    | true =>
+      refine ⟨.stepDone c, by simp, ?_⟩
+      simp [step, actorStep, hc, hk, hop, hi]
+    | false =>
+      refine ⟨.seeStop c, by simp, ?_⟩
+      simp [step, actorStep, hc, hk, hop, hi, hp, actParentRecvBreaks]
+  · refine ⟨.cleanupDone c, by simp, ?_⟩
+    have : cn.op = some 2 := (Node.op_iff cn 2).mpr ⟨h2, by omega⟩
+    simp [step, actorStep, hc, hk, this]
+
+theorem stopping_progress_aux {σ : State} (inv : Inv σ)
+    (hno : ∀ i n, σ.nodes i = some n → n.late = false) :
+    ∀ k s sn, σ.size - s ≤ k → σ.nodes s = some sn → sn.kind = .sup →
+      (σ.canBreak sn = true ∨ 1 ≤ sn.pc) → sn.done = false → ∃ d, Desc σ s d ∧ Enabled σ d := by
+  intro k
+  induction k with
+  | zero =>
+    intro s sn hk hs
+    have := inv.lt_size hs
+    omega
+  | succ k ih =>
+    intro s sn hle hs hk hb hnd
+    obtain ⟨hl1, hl2, _⟩ := inv.loc s sn hs
+    obtain ⟨hsent, _⟩ := hl2 hk
+    rw [Node.done_false_iff] at hnd
+    have h012 : sn.pc = 0 ∨ sn.pc = 1 ∨ sn.pc = 2 := by omega
+    rcases h012 with h0 | h1 | h2
+    · have hcb : σ.canBreak sn = true := by
+        rcases hb with hb | hb
+        · exact hb
+        · omega
+      refine ⟨s, Desc.refl, .supStep s, by simp, ?_⟩
+      have : sn.op = some 0 := (Node.op_iff sn 0).mpr ⟨h0, by omega⟩
+      simp [step, Kanidm.Actors.supStep, hs, hk, this, hcb]
+    · refine ⟨s, Desc.refl, .supStep s, by simp, ?_⟩
+      have : sn.op = some 1 := (Node.op_iff sn 1).mpr ⟨h1, by omega⟩
+      simp [step, Kanidm.Actors.supStep, hs, hk, this]
+    · have hop : sn.op = some 2 := (Node.op_iff sn 2).mpr ⟨h2, by omega⟩
+      cases hnl : σ.noLiveChild s with
+      | true =>
+        refine ⟨s, Desc.refl, .supStep s, by simp, ?_⟩
+        simp [step, Kanidm.Actors.supStep, hs, hk, hop, hnl]
+      | false =>
+        obtain ⟨c, cn, hclt, hc, hp, hcd⟩ := live_child_of_not_noLiveChild hnl
+        have hsn : sn.sent = true := hsent.mpr (by omega)
+        have hpend : cn.pending = true := by
+          rcases inv.sentKids c cn s sn hc hp hs hsn (hno c cn hc) with h1 | h1
+          · exact h1
+          · rw [hcd] at h1; cases h1
+        have hsc := (inv.par c cn s hc hp).1
+        cases hkc : cn.kind with
+        | actor =>
+          exact ⟨c, Desc.child hc hp Desc.refl, actor_enabled inv hc hkc hpend hcd⟩
+        | sup =>
+          have hcb : σ.canBreak cn = true := by
+            simp [State.canBreak, hpend, supParentRecvBreaks]
+          obtain ⟨d, hd, he⟩ := ih c cn (by omega) hc hkc (Or.inl hcb) hcd
+          exact ⟨d, Desc.trans_child hc hp hd, he⟩
+
 end Kanidm.Actors
